@@ -51,8 +51,14 @@ int m_bst_insert(m_bst_t *l, void *data) {
     return -ENOMEM;
 }
 int m_bst_remove(m_bst_t *l, void *data) {
-    m_src_tmr_t *k = data;
-    for (int i = 0; i < NR; i++) if (reg[i] && reg[i]->tmr_src.its.ns == k->ns) { m_mem_unref(reg[i]); reg[i] = NULL; nreg--; return 0; }
+    /* deregister_mod_src() looks a source up through a key wrapped in a source (src.c:fill_src); the element destructor
+     * of the modules' registries (src.c:mod_src_dtor) takes the source off the poll set and drops the registry's reference */
+    ev_src_t *k = data;
+    for (int i = 0; i < NR; i++) if (reg[i] && reg[i]->tmr_src.its.ns == k->tmr_src.its.ns) {
+        poll_set_new_evt(&vf_the_ctx->ppriv, reg[i], RM);
+        m_mem_unref(reg[i]); reg[i] = NULL; nreg--;
+        return 0;
+    }
     return -ENOENT;
 }
 
